@@ -31,6 +31,7 @@ RULE = ("filter skeletons from the ORM-supported scalar fragment (comparison ope
         "executed a statement")
 RULE += (" " + 'Also: in-lists of 1000 and 2101 items; schema with partial / plain indexes, fixed-point column, Profile one-to-one.')
 RULE += (" " + 'Value-magnitude lane: 13 skeletons x 7 magnitudes (integers beyond 32/53/63/64 bits, 10**30; strings of 300/5000/70000 characters) x 6 entry styles.')
+RULE += (" " + 'Round-13: 8 float spellings by magnitude (exponent, near-max, beyond the double range, subnormal, underflow, beyond 2**53) x 6 float skeletons x every entry style.')
 ASSUMPTIONS = ["booleans and null are rendered as SQL constants by design (excluded by the "
                "property's quantifier)",
                "values are searched in the driver parameters after the backend's own adaptation "
